@@ -2,6 +2,7 @@
    One case per input line "op arg ...", one canonical result line per case on stdout.
    The same case file is given to harness/szimpl (the implementation). *)
 open Szm
+type string = Stdlib.String.t   (* the extracted Coq string type is Szm.string *)
 open Zio
 
 let sl = string_of_zlist
@@ -211,6 +212,34 @@ let () =
     | [bytes] -> let b = zlist_of_string bytes in
       (match sniff starts_with_magic b with Zneg _ -> "sniff=-1" | z -> "sniff=" ^ hz z)
     | _ -> failwith "sniff")
+
+(* ---------------- C16 ---------------- *)
+let () =
+  let fields st = String.concat "," (List.map hz (state_fields st)) in
+  (* conf f <key=K:value;...>  (keys already lower-cased "section:key"; K in S,I,D,F)  |  conf p <26 fields>  |  conf m *)
+  reg "conf" (fun a -> match a with
+    | ["f"; toks] ->
+      let kv = if toks = "_" then [] else List.map (fun t ->
+          let i = String.index t '=' in
+          let k = String.sub t 0 i and v = String.sub t (i + 1) (String.length t - i - 1) in
+          let body = String.sub v 2 (String.length v - 2) in
+          let value = (match v.[0] with
+              | 'S' -> VS (coq_string_of body) | 'I' -> VI (z_of_hex body) | 'D' -> VD (z_of_hex body) | 'F' -> VF (z_of_hex body)
+              | _ -> failwith "token") in
+          (coq_string_of k, value)) (String.split_on_char ';' toks) in
+      (match read_conf kv with Some st -> "ret=0 fields=" ^ fields st | None -> "ret=-1")
+    | ["p"; fl] ->
+      (match zlist_of_string fl with
+       | [a0;a1;a2;a3;a4;a5;a6;a7;a8;a9;a10;a11;a12;a13;a14;a15;a16;a17;a18;a19;a20;a21;a22;a23;a24;a25] ->
+         let p = { dataEndianType = a0; sol_ID = a1; max_quant_intervals = a2; quantization_intervals = a3; maxRangeRadius = a4;
+                   predThreshold = a5; sampleDistance = a6; szMode = a7; losslessCompressor = a8; withRegression = a9; gzipMode = a10;
+                   protectValueRange = a11; randomAccess = a12; snapshotCmprStep = a13; errorBoundMode = a14; absErrBound = a15;
+                   relBoundRatio = a16; psnr = a17; normErr = a18; pw_relBoundRatio = a19; segment_size = a20; accelerate_pw_rel = a21;
+                   pwr_type = a22; optQuantMode = a23; intvCapacity = a24; intvRadius = a25 } in
+         (match init_params p with Some st -> "ret=0 fields=" ^ fields st | None -> "ret=-1")
+       | _ -> failwith "conf p")
+    | ["m"] -> "ret=-1"
+    | _ -> failwith "conf")
 
 let () =
   (try
